@@ -276,6 +276,9 @@ func (p *Peer) opLoop() {
 				p.TxErr = err
 			}
 			p.mu.Unlock()
+		case "wait":
+			// think time: the peer does nothing for N simulated seconds (timers and keep-alives run meanwhile)
+			time.Sleep(time.Duration(op.N) * time.Second)
 		case "close":
 			p.mu.Lock()
 			p.Closed = true
@@ -287,6 +290,7 @@ func (p *Peer) opLoop() {
 		p.mu.Lock()
 		p.busy = false
 		p.mu.Unlock()
+		p.r.Net.Poke() // the next scripted operation is enabled now
 	}
 }
 
